@@ -46,6 +46,15 @@ FINGERPRINT = {'cellmlmanip/parser.py': ['Parser.transform_constants', 'Parser._
                                        'Model.get_derived_quantities', 'Model.get_equations_for', 'Model.graph',
                                        'Model.add_variable', 'Model.find_variables_and_derivatives']}
 BUNDLED = os.path.join(REPO, 'tests', 'cellml_files')
+try:                                  # static scan of the working tree: set iterations the Lean model does not know
+    import setscan as _setscan
+    SETSCAN = _setscan.report()
+    SETSCAN_DRIFT = _setscan.drift()
+except Exception as _e:               # a scanner that cannot run is treated like drift (more seeds), never ignored
+    SETSCAN, SETSCAN_DRIFT = {'sites': []}, ['setscan failed: %s' % _e]
+ASSUMPTIONS.append('setscan: %d set-iteration sites in cellmlmanip/*.py, %d modelled, %s' % (
+    len(SETSCAN['sites']), len([x for x in SETSCAN['sites'] if x.get('class') == 'modelled']),
+    ('DRIFT (new or re-introduced sites, seeds x4): ' + '; '.join(SETSCAN_DRIFT)) if SETSCAN_DRIFT else 'no drift'))
 THREADS = int(os.environ.get('C15_THREADS', '3'))
 
 # ---------------------------------------------------------------------------------------------- the dump (subprocess)
@@ -397,11 +406,7 @@ def _seeds(rng, n):
 def n_seeds(tier):
     """quick 8 / thorough 64; a set-iteration site the model does not know multiplies the quick budget by 4"""
     n = SEEDS[tier]
-    try:
-        import setscan
-        if setscan.drift() and tier == 'quick':
-            n *= 4
-    except Exception:
+    if SETSCAN_DRIFT and tier == 'quick':
         n *= 4
     return n
 
@@ -420,8 +425,12 @@ def add_constants(doc, rng, n):
     return d
 
 
+SEARCH_BUDGET = 1500            # interpreters for the base texts of a search (run.py asks for n x 8 'thorough' cases)
+
+
 def gen(rng, n, tier):
-    ns = n_seeds(tier)
+    searching = n > N['thorough']
+    ns = max(2, SEARCH_BUDGET // n) if searching else n_seeds(tier)
     for i in range(n):
         r = rng.random()
         if r < 0.15:
@@ -432,7 +441,7 @@ def gen(rng, n, tier):
         doc = add_constants(doc, rng, rng.randint(3, 7))
         seeds = _seeds(rng, ns)
         yield {'kind': 'gen', 'doc': doc, 'seeds': seeds, 'perms': list(PERM_KINDS), 'perm_seed': rng.randrange(10 ** 9),
-               'perm_seeds': [seeds[0], seeds[-1]]}
+               'perm_seeds': [seeds[-1]] if searching else [seeds[0], seeds[-1]]}
 
 
 def _tier():
